@@ -25,15 +25,23 @@ package document
 
 //@ func (*Table).InsertRow
 //@ props C09
+//@ wf TableCell.Paragraphs, Paragraph.Runs, TableCell.Properties
 //@ requires t != nil
 //@ ensures err != nil ==> unchangedHeap()
 //@ ensures err == nil ==> len(t.Rows) == old(len(t.Rows)) + 1
 //@ ensures err == nil ==> forall r int :: 0 <= r && r < old(len(t.Rows)) ==> t.Rows[ite(r < position, r, r+1)] == old(t.Rows[r])
-//@ ensures err == nil ==> len(t.Rows[position].Cells) == old(len(t.Rows[0].Cells))
+//@ ensures err == nil ==> len(t.Rows[position].Cells) == old(len(t.Rows[0].Cells)) && len(data) <= len(t.Rows[position].Cells)
+//@ ensures err == nil ==> len(t.Rows[position].Cells) == 0 || arr(t.Rows[position].Cells) >= old(allocBound())
+//@ ensures err == nil ==> forall k int :: 0 <= k && k < len(t.Rows[position].Cells) ==> len(t.Rows[position].Cells[k].Paragraphs) == 1 && len(t.Rows[position].Cells[k].Paragraphs[0].Runs) == 1 && t.Rows[position].Cells[k].Paragraphs[0].Runs[0].Text.Content == ite(k < len(data), data[k], "")
+//@ ensures err == nil ==> forall k int :: 0 <= k && k < len(t.Rows[position].Cells) ==> ((t.Rows[position].Cells[k].Properties == nil) == (old(t.Rows[0].Cells[k].Properties) == nil)) && (t.Rows[position].Cells[k].Properties == nil || fresh(t.Rows[position].Cells[k].Properties))
+//@ ensures err == nil ==> forall k1 int, k2 int :: 0 <= k1 && k1 < k2 && k2 < len(t.Rows[position].Cells) && t.Rows[position].Cells[k1].Properties != nil ==> t.Rows[position].Cells[k1].Properties != t.Rows[position].Cells[k2].Properties
 //@ loop 1
 //@   invariant 0 <= i && i <= colCount
-//@   invariant len(newRow.Cells) == colCount
+//@   invariant len(newRow.Cells) == colCount && arr(newRow.Cells) >= old(allocBound()) && off(newRow.Cells) == 0
 //@   invariant unchangedHeap()
+//@   invariant forall k int :: 0 <= k && k < i ==> len(newRow.Cells[k].Paragraphs) == 1 && len(newRow.Cells[k].Paragraphs[0].Runs) == 1 && newRow.Cells[k].Paragraphs[0].Runs[0].Text.Content == ite(k < len(data), data[k], "")
+//@   invariant forall k int :: 0 <= k && k < i ==> ((newRow.Cells[k].Properties == nil) == (old(t.Rows[0].Cells[k].Properties) == nil)) && (newRow.Cells[k].Properties == nil || fresh(newRow.Cells[k].Properties))
+//@   invariant forall k1 int, k2 int :: 0 <= k1 && k1 < k2 && k2 < i && newRow.Cells[k1].Properties != nil ==> newRow.Cells[k1].Properties != newRow.Cells[k2].Properties
 //@   decreases colCount - i
 
 //@ func (*Table).AppendRow
@@ -75,8 +83,10 @@ package document
 
 //@ func (*Table).InsertColumn
 //@ props C09
-//@ wf TableCell.Paragraphs, Paragraph.Runs, TableRow.Cells
+//@ wf TableCell.Paragraphs, Paragraph.Runs, TableRow.Cells, TableCell.Properties
 //@ requires t != nil && rowsOwn(t)
+//@ ensures err == nil ==> forall r int :: 0 <= r && r < len(t.Rows) ==> fresh(t.Rows[r].Cells[position].Properties)
+//@ ensures err == nil ==> forall r1 int, r2 int :: 0 <= r1 && r1 < r2 && r2 < len(t.Rows) ==> t.Rows[r1].Cells[position].Properties != t.Rows[r2].Cells[position].Properties
 //@ ensures err != nil ==> unchangedHeap()
 //@ ensures err == nil ==> t.Grid != nil && len(t.Grid.Cols) == old(ite(t.Grid == nil, 0, len(t.Grid.Cols))) + 1
 //@ ensures err == nil ==> len(t.Rows) == old(len(t.Rows)) && rowsOwn(t)
@@ -91,6 +101,8 @@ package document
 //@   invariant 0 <= #i && #i <= len(t.Rows) && len(t.Rows) == old(len(t.Rows)) && t.Rows == old(t.Rows)
 //@   invariant t.Grid != nil && len(t.Grid.Cols) == old(ite(t.Grid == nil, 0, len(t.Grid.Cols))) + 1
 //@   invariant rowsOwn(t)
+//@   invariant forall r int :: 0 <= r && r < #i ==> fresh(t.Rows[r].Cells[position].Properties)
+//@   invariant forall r1 int, r2 int :: 0 <= r1 && r1 < r2 && r2 < #i ==> t.Rows[r1].Cells[position].Properties != t.Rows[r2].Cells[position].Properties
 //@   invariant forall r int :: 0 <= r && r < len(t.Rows) ==> position <= old(len(t.Rows[r].Cells))
 //@   invariant forall r int :: 0 <= r && r < #i ==> len(t.Rows[r].Cells) == old(len(t.Rows[r].Cells)) + 1
 //@   invariant forall r int :: #i <= r && r < len(t.Rows) ==> t.Rows[r].Cells == old(t.Rows[r].Cells)
